@@ -7,21 +7,7 @@ root=$(pwd)
 mkdir -p build evidence replays
 /venv/bin/python -c "import sys; sys.path.insert(0, 'harness'); import common; common.regen_coqproject()" || exit 1
 # generated Coq files must exist before the build
-/venv/bin/python - <<'PY' || exit 1
-import sys
-sys.path.insert(0, "harness")
-import common
-# every Coq file that is generated from /repo's sources: guard structure (C15), default configuration (C03),
-# command -> lock type table (C09)
-for what, fn in (("translate_guards", lambda: __import__("translate_guards").generate(common.REPO, common.COQ + "/Generated/Guards.v")),
-                 ("c03.regen_config", lambda: __import__("c03").regen_config()),
-                 ("translate_locks", lambda: __import__("translate_locks").generate())):
-    try:
-        fn()
-    except Exception as e:
-        print("%s: %s" % (what, e))
-common.regen_coqproject()
-PY
+/venv/bin/python tools/regen_generated.py || exit 1
 cd coq
 timeout 3000 make -k -j16 > "$root/build-coq.log" 2>&1 || { echo "coq build had failures:"; grep -B2 -A6 "Error" "$root/build-coq.log" | head -60; }
 cd "$root"
